@@ -72,6 +72,8 @@ type Frame struct {
 	autoInv  map[*ssa.BasicBlock][]autoInv
 	atCount  map[string]int
 	cbOnce   bool
+	// cbRehavoc re-applies the frame of the contract whose callbacks are being run (see preserves)
+	cbRehavoc func(*State)
 }
 
 type autoInv struct {
